@@ -189,15 +189,33 @@ static void c8_case(uint64_t idx, void *vctx)
             int stride = ph_stride_for(FM[fi].bpp, sw);
             for (int y = 0; y < sh; y++) for (int x = 0; x < sw; x++) ph_put_pixel((uint8_t *)sbuf + y * stride, FM[fi].bpp, x, raw[y * sw + x]);
             pixman_image_t *src = pixman_image_create_bits(FM[fi].code, sw, sh, sbuf, stride);
+            int hist = (int)((idx0 + (uint64_t)si) & 1), cur_fl = -1, cur_ri = -1;
+            if (hist) {
+                /* history: the image is first drawn from (bilinear) with the same linear part and an INTEGER translation, then given the transform
+                 * under test - what the library derived from the first matrix (e.g. "bilinear reduces to nearest") must not survive */
+                pixman_transform_t t0 = t; t0.matrix[0][2] = 2 * FX1; t0.matrix[1][2] = FX1;
+                uint32_t one[2] = { 0, 0 }; pixman_image_t *scratch = pixman_image_create_bits(PIXMAN_a8r8g8b8, 2, 1, one, 8);
+                pixman_image_set_transform(src, &t0); pixman_image_set_filter(src, PIXMAN_FILTER_BILINEAR, NULL, 0); pixman_image_set_repeat(src, PIXMAN_REPEAT_REFLECT);
+                pixman_image_composite32(PIXMAN_OP_SRC, src, NULL, scratch, 0, 0, 0, 0, 0, 0, 2, 1);
+                pixman_image_unref(scratch);
+                cur_fl = 1; cur_ri = 3;
+            }
             pixman_image_set_transform(src, &t);
-            for (int fl = 0; fl < NFIL; fl++) {
+            /* with a history the first judged drawing uses the filter and repeat the image already has: no other setter runs between
+             * set_transform and that drawing */
+            for (int flk = 0; flk < NFIL; flk++) {
+                int fl = hist ? (flk == 0 ? 1 : flk == 1 ? 0 : flk) : flk;
                 if (c->projective && FIL[fl].kind >= 2 && fl % 3) continue;
-                if (FIL[fl].kind == 0) pixman_image_set_filter(src, PIXMAN_FILTER_NEAREST, NULL, 0);
-                else if (FIL[fl].kind == 1) pixman_image_set_filter(src, PIXMAN_FILTER_BILINEAR, NULL, 0);
-                else if (FIL[fl].kind == 2) pixman_image_set_filter(src, PIXMAN_FILTER_CONVOLUTION, FIL[fl].p, FIL[fl].n);
-                else pixman_image_set_filter(src, PIXMAN_FILTER_SEPARABLE_CONVOLUTION, FIL[fl].p, FIL[fl].n);
-                for (int ri = 0; ri < 4; ri++) {
-                    pixman_image_set_repeat(src, reps[ri]);
+                if (fl != cur_fl) {
+                    if (FIL[fl].kind == 0) pixman_image_set_filter(src, PIXMAN_FILTER_NEAREST, NULL, 0);
+                    else if (FIL[fl].kind == 1) pixman_image_set_filter(src, PIXMAN_FILTER_BILINEAR, NULL, 0);
+                    else if (FIL[fl].kind == 2) pixman_image_set_filter(src, PIXMAN_FILTER_CONVOLUTION, FIL[fl].p, FIL[fl].n);
+                    else pixman_image_set_filter(src, PIXMAN_FILTER_SEPARABLE_CONVOLUTION, FIL[fl].p, FIL[fl].n);
+                    cur_fl = fl;
+                }
+                for (int rik = 0; rik < 4; rik++) {
+                    int ri = hist ? (rik + 3) % 4 : rik;
+                    if (ri != cur_ri) { pixman_image_set_repeat(src, reps[ri]); cur_ri = ri; }
                     rsrc_t rs = { sw, sh, FM[fi], raw, reps[ri] };
                     for (int off = 0; off < 2; off++) {
                         int dx0 = off ? 2 : 0, dy0 = off ? 1 : 0;     /* request starts at (dx0,dy0) in the destination, source origin follows */
@@ -593,7 +611,7 @@ int main(int argc, char **argv)
     vf_space_run("wide-and-tall-sources", 3 * 7 * 6 * 4 * 2, big_case, &cb);
     static char b[1500];
     snprintf(b, sizeof b, "%llu affine transforms (m00 x m11 x m01 x m10 x tx x ty alphabets incl. +-1/2, +-1, 1+e, 2, 1/3 and translations 0, +-e, 1/2-e, 1/2, -1/2, 1, 3-e) + 768 projective; "
-             "%d filters (nearest, bilinear, 7 convolution kernels incl. negative lobes, %d separable tables); 4 repeats; sources 1x1 2x2 3x2 4x4 x 4 formats; 3 configurations; covering quarter/half turns and flips: 7 matrices x 7x7 translation fractions (0, e, 1/2-e, 1/2, 1/2+e, 1-e, 1/4) x 4 formats x nearest/bilinear x 2 request sizes x same-format and a8r8g8b8 destinations x 3 configurations; wide pipeline: 4536 affine + 768 projective transforms x 3 sizes x 3 format pairs (a8r8g8b8->rgba_float, a2r10g10b10->a8r8g8b8, rgba_float->a8r8g8b8) x {nearest, bilinear, conv2x2, conv3x1} x 4 repeats; wide/tall sources: sizes 32766, 32765, 32700, 20000 (x2 and 2x; the library drops transformed requests on sources of 32767 or more) x 6 scales x 7 first-sample positions "
+             "%d filters (nearest, bilinear, 7 convolution kernels incl. negative lobes, %d separable tables); 4 repeats; sources 1x1 2x2 3x2 4x4 x 4 formats (every other image first drawn from with an integer-translation twin of the transform); 3 configurations; covering quarter/half turns and flips: 7 matrices x 7x7 translation fractions (0, e, 1/2-e, 1/2, 1/2+e, 1-e, 1/4) x 4 formats x nearest/bilinear x 2 request sizes x same-format and a8r8g8b8 destinations x 3 configurations; wide pipeline: 4536 affine + 768 projective transforms x 3 sizes x 3 format pairs (a8r8g8b8->rgba_float, a2r10g10b10->a8r8g8b8, rgba_float->a8r8g8b8) x {nearest, bilinear, conv2x2, conv3x1} x 4 repeats; wide/tall sources: sizes 32766, 32765, 32700, 20000 (x2 and 2x; the library drops transformed requests on sources of 32767 or more) x 6 scales x 7 first-sample positions "
              "(left of the image, at its start, middle, end, end of the coordinate range) x 3 sub-pixel offsets x nearest/bilinear x 4 repeats x 4 formats x {SRC, OVER} x {a8r8g8b8, r5g6b5} destinations x 3 configurations",
              (unsigned long long)naff, NFIL, NFIL - 9);
     vf_bounds = b;
